@@ -206,7 +206,9 @@ def translate(rec, want_debug=False):
 
     def is_uncond(n):
         nm = n.get("i", "")
-        return nm in ("jmp", "b", "br")
+        if nm == "b":
+            return n.get("cc", 0) in (0, 1)        # arm::CondCode::kAL = 0 (no condition), kNA = 1
+        return nm in ("jmp", "br")
 
     def jump_targets(n, labels):
         ops = n.get("ops", [])
@@ -396,6 +398,15 @@ def translate(rec, want_debug=False):
         """I op of an original instruction (before node bn, after node an)"""
         reads, writes, clob, pclob = [], [], [], []
         bops, aops = bn.get("ops", []), an.get("ops", [])
+        if (not F.x86 and bn.get("i") == "adr" and len(bops) == 2 and bops[1]["k"] == "m" and bops[1]["home"]
+                and an.get("i") == "add" and len(aops) == 3 and F.is_sp(aops[1]) and aops[2]["k"] == "i" and F.tracked(bops[0])):
+            # load_address_of(user stack area): adr v, [stack]  ->  add x, sp, #off
+            sv = bops[1]["b"]["id"]
+            base_off = sp + aops[2]["v"] - bops[1]["d"]
+            if sv in stack_base and stack_base[sv] != base_off:
+                raise Unsupported("user stack area at two different offsets")
+            stack_base[sv] = base_off
+            return [], [], [], [[F.rloc(aops[0]), bops[0]["id"]]]
         if len(bops) != len(aops):
             raise Unsupported("operand count changed")
         md = mdef_in.get(bi, set())
@@ -605,6 +616,8 @@ def translate(rec, want_debug=False):
         copyset = X86_COPY if F.x86 else A64_COPY
         if nm in copyset and len(aops) == 2:
             d, s = aops
+            if not F.x86 and nm in ("str", "stur", "strb", "strh"):
+                d, s = s, d
             if d["k"] == "r" and F.is_sp(d):
                 raise Unsupported("stack pointer written by " + nm)
             if d["k"] == "r" and s["k"] == "r":
